@@ -7,7 +7,8 @@ VERIF = os.path.dirname(os.path.dirname(os.path.abspath(__file__)))
 REPO = os.environ.get("CMI_REPO", "/repo")
 COQ = os.path.join(VERIF, "coq")
 BUILD = os.path.join(VERIF, "build")          # git-ignored; rebuilt by setup / on demand
-REPOBUILD = os.path.join(BUILD, "repo")       # cmake/ninja build dir of /repo with hooks on
+# cmake/ninja build dir of the repo under test with hooks on (one per repo path, so mutation worktrees do not thrash it)
+REPOBUILD = os.path.join(BUILD, "repo" if REPO == "/repo" else "repo_" + hashlib.sha256(REPO.encode()).hexdigest()[:10])
 GUARD = "CMI_VERIF"
 NCPU = os.cpu_count() or 4
 
